@@ -208,6 +208,15 @@ def run(tier, seed, which="C07"):
         raise kv.Broken("MC_Hirschberg twin not rejected")
     if not r.ok:
         raise kv.Broken("MC_Scoring: fold DP disagrees with brute force: %s" % r.out[-600:])
+    # C07 on the model: the constructive kernel + recursion returns every certified unique optimum (exhaustive, small);
+    # the twin with the pre-24dd196 meetup rule must be rejected
+    for cfg in (["MC_Kernel_q.cfg"] if tier == "quick" else ["MC_Kernel_q.cfg", "MC_Kernel_t5.cfg"]):
+        rk = kv.run_tlc("MC_Kernel", cfg, wd, workers=16, timeout=3000, heap="8g")
+        V.add_tlc(rk)
+        if not rk.ok:
+            raise kv.Broken("MC_Kernel %s: the kernel model does not return a certified optimum / malformed path: %s" % (cfg, rk.out[-400:]))
+    if kv.run_tlc("MC_Kernel", "MC_Kernel_twin.cfg", wd, workers=16, timeout=900, heap="8g").ok:
+        raise kv.Broken("MC_Kernel twin (pinned meetup rule) not rejected")
     C = cases(rng, tier)
     # batches balanced by DP cost
     C.sort(key=lambda c: -len(c["a"]) * len(c["b"]))
@@ -237,15 +246,25 @@ def run(tier, seed, which="C07"):
         hp = os.path.join(bwd, "h.ndjson")
         kv.write_ndjson(hp, [e for e in ev if e.get("e") in ("HStep", "HSplit")])
         hres = kv.run_tlc("HirschTrace", "HirschTrace.cfg", bwd, trace=hp, timeout=1200, heap="3g", name="hirsch")
-        out = []
+        out, kout = [], []
         for e in ev:
             if e.get("e") == "Note" and e["text"].startswith("CASE "):
                 c = batches[bi][int(e["text"][5:])]
                 out.append(dict(e="Case", id=c["id"], a=kv.asc(c["a"]), b=kv.asc(c["b"]), p=c["p"], ka=c["ka"], kb=c["kb"]))
+                kout.append(out[-1])
             elif e.get("e") in ("Params", "Obj"):
                 out.append(e)
+                kout.append(e)
+            elif e.get("e") in ("Sorted", "HSplit"):
+                kout.append(e)
         kv.write_ndjson(tp, out)
         res = kv.run_tlc("ScoringTrace", "ScoringTrace.cfg", bwd, trace=tp, timeout=3000, heap="4g")
+        # every split of the pairs re-derived from the constructive kernel model (diagnostic as well)
+        kp = os.path.join(bwd, "k.ndjson")
+        kv.write_ndjson(kp, kout)
+        kres = kv.run_tlc("KernelTrace", "KernelTrace.cfg", bwd, trace=kp, timeout=3000, heap="4g", name="kernel")
+        hres.kernel = kres
+        hres.kernel_splits = sum(1 for e in kout if e.get("e") == "HSplit")
         return bi, tp, rc, err, res, hres
 
     for bi, tp, rc, err, res, hres in kv.pmap(do, range(len(batches)), workers=14):
@@ -254,6 +273,17 @@ def run(tier, seed, which="C07"):
         V.extra["controller_steps_validated"] = V.extra.get("controller_steps_validated", 0) + hres.distinct
         for (ln, sid, items) in hres.divs:
             V.divergence("batch %d controller event %d: %s" % (bi, ln, ",".join(sorted(items))))
+        kres = hres.kernel
+        V.add_tlc(kres)
+        if not kres.accepted:
+            V.divergence("batch %d: kernel trace not consumed to the end" % bi)
+        nskip = sum(1 for x in kres.prints if x.startswith('<<"KVSKIP"'))
+        V.extra["kernel_splits_rederived"] = V.extra.get("kernel_splits_rederived", 0) + hres.kernel_splits
+        V.extra["kernel_pairs_walked"] = V.extra.get("kernel_pairs_walked", 0) + len(batches[bi]) - nskip
+        V.extra["kernel_too_close_to_call_in_float"] = V.extra.get("kernel_too_close_to_call_in_float", 0) + sum(1 for x in kres.prints if x.startswith('<<"KVNOTE"'))
+        for (ln, sid, items) in kres.divs:
+            info = [x for x in kres.prints if x.startswith('<<"KVINFO",%d,' % ln)]
+            V.divergence("batch %d kernel event %d case %s: %s %s" % (bi, ln, sid, ",".join(sorted(items)), info[0][:200] if info else ""))
         skipped = set()
         for line in res.prints:
             if line.startswith('<<"KVSKIP"'):
